@@ -17,6 +17,13 @@ categoricals, with unusual-but-legal domains forced: choice / ordinal with dupli
 single-value choice, float and bool categories (mixed types, and duplicates in nearest-neighbour ordinals, are
 rejected by the library).
 
+Transfer learning in the fresh-process face: a ``vt_transfer`` batch runs RUSHScheduler (stopping / promotion, no
+custom_rush_points, 2-4 source tasks x 1-3 best configurations = 2-12 threshold candidates, spaces with string-valued
+and numeric hyperparameters) and BoundingBox (around a seeded FIFO / Hyperband scheduler) under PYTHONHASHSEED 0 / 1 /
+random; the order of the first suggested configurations (the threshold candidates) is part of the compared trace.
+RUSH with custom_rush_points only through explicit reproducer specs (candidate C11-K3: hash-order dependent today).
+ZeroShotTransfer and the quantile-based searcher need xgboost and cannot be imported here.
+
 Engine S (in process, shared argument objects): direct RandomSearcher / GridSearcher instances (behind a small
 scheduler-API adapter) and FIFO / Hyperband / synchronous Hyperband / PBT / REA schedulers are built twice from the
 SAME argument objects (config_space dict, points_to_evaluate list, search_options dict incl. the
@@ -116,8 +123,9 @@ KINDS_A = [
     "fifo_random", "fifo_grid", "hb_stopping", "hb_promotion", "hb_pasha", "hb_cost_promotion",
     "hb_rush_stopping", "hb_rush_promotion", "sync_hb", "dehb", "pbt", "rea", "morea",
 ]
-VT_SCEN = ["vt_gp_fifo", "vt_mobster_promotion", "vt_mobster_stopping", "vt_hypertune", "vt_modelfree", "vt_hashmatrix"]
-BATCH_SCEN = ("vt_modelfree", "vt_hashmatrix")
+VT_SCEN = ["vt_gp_fifo", "vt_mobster_promotion", "vt_mobster_stopping", "vt_hypertune", "vt_modelfree", "vt_hashmatrix",
+           "vt_transfer"]
+BATCH_SCEN = ("vt_modelfree", "vt_hashmatrix", "vt_transfer")
 SIM_SCHED = ["fifo_random", "hb", "sync_hb", "dehb", "pbt", "rea", "gp_fifo", "mobster", "hypertune", "fifo_grid"]
 HASHSEEDS = ["0", "1", "random"]
 
@@ -158,7 +166,7 @@ def _b_plan(tier):
     """Scenario list of a tier (engine B)."""
     if tier == "quick":
         return (["vt_gp_fifo", "vt_mobster_promotion", "vt_hypertune", "vt_modelfree", "vt_mobster_stopping",
-                 "vt_gp_fifo", "vt_modelfree", "vt_hashmatrix", "vt_hashmatrix"]
+                 "vt_gp_fifo", "vt_modelfree", "vt_hashmatrix", "vt_hashmatrix", "vt_transfer", "vt_transfer"]
                 + ["sim_" + s for s in SIM_SCHED[:9]])
     out = []
     for r in range(11):
@@ -225,6 +233,10 @@ def floors(tier):
         f["fresh_process_hash_twins:" + kind] = 6 * kb
         f["fresh_process_hash_twins_with_duplicated_string_categories:" + kind] = 3 * kb
     f["spaces_with_duplicated_categories"] = 60 * kb
+    for kind, m in (("tl_rush_stopping", 10), ("tl_rush_promotion", 10), ("tl_bbox_fifo", 5), ("tl_bbox_hb", 5)):
+        f["fresh_process_hash_twins:" + kind] = m * kb
+    f["fresh_process_rush_twins_with_2+_candidates_string_and_numeric_hps"] = 20 * kb
+    f["fresh_process_rush_twins_threshold_candidates"] = 60 * kb
     f["fresh_process_grid_twins_with_duplicated_string_categories:shuffle_true"] = 3 * kb
     f["fresh_process_grid_twins_with_duplicated_string_categories:shuffle_false"] = 3 * kb
     kn = 1 if tier == "quick" else 10
@@ -660,10 +672,101 @@ class SearcherAdapter:
         self.searcher.evaluation_failed(str(trial.trial_id))
 
 
+# ---------------------------------------------------------------------------------------------
+# transfer-learning schedulers (fresh-process face only): RUSH and BoundingBox; ZeroShotTransfer and the quantile-based
+# searcher import xgboost, which this sandbox does not have
+
+TL_KINDS = ["tl_rush_stopping", "tl_rush_promotion", "tl_rush_stopping", "tl_bbox_fifo", "tl_rush_promotion", "tl_bbox_hb"]
+TL_SPACE_KINDS = ["uniform", "loguniform", "randint", "lograndint", "choice", "choice", "finrange", "ordinal_equal"]
+
+
+def expand_tl(spec):
+    """Parameters of a transfer-learning history: a Hyperband / FIFO parameterisation plus >= 2 source tasks whose best
+    configurations differ; the space always has string-valued AND numeric hyperparameters."""
+    kind = spec["kind"]
+    base = {"tl_rush_stopping": "hb_rush_stopping", "tl_rush_promotion": "hb_rush_promotion", "tl_bbox_fifo": "fifo_random",
+            "tl_bbox_hb": "hb_stopping"}[kind]
+    rng = random.Random(spec["seed"] * 29 + 11)
+    p = expand_a({k: v for k, v in dict(spec, kind=base).items() if k not in ("force_kind", "space_style")})
+    p["kind"] = kind
+    p["use_mra"] = False
+    p["rush_candidates"] = 0
+    p["variant"] = "plain"
+    bbox = kind.startswith("tl_bbox")
+    # BoundingBox: integer hyperparameters make its constructor raise (restrict_domain gets numpy.int64 bounds, 'value =
+    # 11 has type numpy.int64'), and initial points need not lie inside the learned box: float / categorical only, no points
+    space = full_space(rng, kinds=["uniform", "loguniform", "choice", "choice"] if bbox else TL_SPACE_KINDS,
+                       with_const=rng.random() < 0.4)
+    space["h0"] = domain_desc(rng, rng.choice(["uniform", "loguniform"] if bbox else ["uniform", "loguniform", "randint"]))
+    space["h1"] = ["choice", [f"c{j}" for j in range(rng.randint(3, 5))]]
+    p["space"] = space
+    p["n_tasks"] = rng.randint(2, 4)
+    p["n_evals"] = rng.randint(6, 16)
+    p["num_hp_per_task"] = spec.get("num_hp_per_task") or rng.choice([1, 1, 2, 3])
+    p["tl_seed"] = rng.randrange(2 ** 31 - 1)
+    p["n_points"] = 0 if bbox else rng.choice([0, 0, 2])
+    p["custom_rush_points"] = 0  # > 0 only in explicit reproducer specs (candidate finding C11-K3)
+    p["max_events"] = rng.randint(110, 160)  # long enough that every threshold candidate (first trials) is suggested
+    p["n_workers"] = max(p["n_workers"], 3)
+    p["max_trials"] = max(p.get("max_trials", 0), 30)
+    if rng.random() < 0.5:
+        p["policy"] = "eager"
+    p.update({k: v for k, v in spec.items() if k not in ("seed", "engine", "kind", "force_kind", "space_style") and not k.startswith("_")})
+    return p
+
+
+def transfer_evaluations(p, space):
+    import numpy as np
+    import pandas as pd
+    from syne_tune.optimizer.schedulers.transfer_learning import TransferLearningTaskEvaluations
+
+    out = {}
+    for t in range(p["n_tasks"]):
+        rs = np.random.RandomState(p["tl_seed"] + 17 * t)
+        rows = [{k: (v.sample(random_state=rs) if hasattr(v, "sample") else v) for k, v in space.items()}
+                for _ in range(p["n_evals"])]
+        out[f"task{t}"] = TransferLearningTaskEvaluations(
+            configuration_space=dict(space), hyperparameters=pd.DataFrame(rows), objectives_names=["loss"],
+            objectives_evaluations=rs.uniform(size=(p["n_evals"], 1, p["max_t"], 1)))
+    return out
+
+
+def build_transfer(p, seed):
+    from syne_tune.optimizer.schedulers import FIFOScheduler, HyperbandScheduler
+    from syne_tune.optimizer.schedulers.transfer_learning import BoundingBox, RUSHScheduler
+
+    kind = p["kind"]
+    space = build_space(p["space"])
+    evals = transfer_evaluations(p, space)
+    npts = p.get("n_points", 0)
+    pts = _sample_configs(p["space"], npts, p["points_seed"]) if npts else None
+    hb = dict(searcher="random", mode=p["mode"], resource_attr="epoch", max_t=p["max_t"], random_seed=seed,
+              search_options={"debug_log": False})
+    for k in ("grace_period", "reduction_factor", "rung_increment", "rung_levels", "brackets", "rung_system_per_bracket"):
+        if p.get(k) is not None:
+            hb[k] = p[k]
+    if kind.startswith("tl_rush"):
+        custom = _sample_configs(p["space"], p["custom_rush_points"], p["points_seed"] + 3) if p.get("custom_rush_points") else None
+        return RUSHScheduler(config_space=space, transfer_learning_evaluations=evals, metric="loss", type=kind[8:],
+                             points_to_evaluate=pts, custom_rush_points=custom,
+                             num_hyperparameters_per_task=p["num_hp_per_task"], **hb)
+
+    def scheduler_fun(new_space, mode, metric):
+        if kind == "tl_bbox_fifo":
+            return FIFOScheduler(new_space, searcher="random", metric=metric, mode=mode, random_seed=seed,
+                                 points_to_evaluate=pts, search_options={"debug_log": False}, max_t=p["max_t"])
+        return HyperbandScheduler(new_space, metric=metric, type="stopping", points_to_evaluate=pts, **hb)
+
+    return BoundingBox(scheduler_fun=scheduler_fun, config_space=space, metric="loss", transfer_learning_evaluations=evals,
+                       mode=p["mode"], num_hyperparameters_per_task=p["num_hp_per_task"])
+
+
 def _build_scheduler(p, seed, args=None):
     from syne_tune.optimizer.schedulers import FIFOScheduler
 
     kind = p["kind"]
+    if kind.startswith("tl_"):
+        return build_transfer(p, seed)
     if args is None:
         args = make_args(p)
     space, pts, so = args["space"], args["pts"], args["so"]
@@ -1130,6 +1233,9 @@ def expand_b(spec):
     elif sc == "vt_hashmatrix":
         p["n_hist"] = 3 * len(HASH_KINDS)  # every model-free kind (incl. directly created searchers) three times
         p["base"] = rng.randrange(2 ** 30)
+    elif sc == "vt_transfer":
+        p["n_hist"] = 3 * len(TL_KINDS)
+        p["base"] = rng.randrange(2 ** 30)
     elif sc.startswith("vt_"):
         p["mode"] = rng.choice(["min", "max"])
         p["space"] = full_space(rng, ensure_infinite=True, with_const=rng.random() < 0.5,
@@ -1316,6 +1422,10 @@ def modelfree_spec(p, j):
     (string-valued) categoricals with duplicated values forced: round 0 a choice with duplicated strings (grid:
     shuffle_config False), round 1 an ordinal and a choice with duplicates (grid: shuffle_config True), round 2 one of
     the other unusual categoricals."""
+    if p["scenario"] == "vt_transfer":
+        return _with_seed(dict({"kind": TL_KINDS[j % len(TL_KINDS)], "seed": p["base"] + 307 * j,
+                                "num_hp_per_task": [1, 2, 1, 3][(j // len(TL_KINDS) + j) % 4]},
+                               **(p.get("history_overrides") or {})), j)
     if p["scenario"] == "vt_hashmatrix":
         kind = HASH_KINDS[j % len(HASH_KINDS)]
         r = (j // len(HASH_KINDS)) % 3
@@ -1332,6 +1442,8 @@ def modelfree_spec(p, j):
 def expand_any(spec):
     """expand_a, also for the directly created searchers (parameters of the corresponding FIFO kind)."""
     kind = spec["kind"]
+    if kind.startswith("tl_"):
+        return expand_tl(spec)
     if kind.startswith("searcher_"):
         p = expand_a(dict(spec, kind={"searcher_random": "fifo_random", "searcher_grid": "fifo_grid"}[kind]))
         p["kind"] = kind
@@ -1913,6 +2025,12 @@ def run_engine_b(spec, o):
         o.count("B:cases_with_quantized_domain")
     for q in hist:
         o.count("fresh_process_hash_twins:" + q["kind"])
+        if q["kind"].startswith("tl_rush"):
+            nth = q["n_tasks"] * q["num_hp_per_task"]
+            o.count("fresh_process_rush_twins_threshold_candidates", nth)
+            if nth >= 2 and any(d_[0] == "choice" and isinstance(d_[1][0], str) for d_ in q["space"].values()) and any(
+                    d_[0] in ("uniform", "loguniform", "randint", "lograndint") for d_ in q["space"].values()):
+                o.count("fresh_process_rush_twins_with_2+_candidates_string_and_numeric_hps")
         dup_str = any(d_[0] in ("choice", "ordinal") and len(set(d_[1])) < len(d_[1]) and isinstance(d_[1][0], str)
                       for d_ in q["space"].values())
         if dup_str:
@@ -1941,7 +2059,10 @@ def run_engine_b(spec, o):
         if sc in BATCH_SCEN:  # which history of the batch diverged first
             for e in reversed(ref[2]["events"][: detail.get("index", 0) + 1]):
                 if e.startswith('["history"'):
-                    hist_kind = ":" + json.loads(e)[2]
+                    he = json.loads(e)
+                    hist_kind = ":" + he[2]
+                    if he[1] < len(hist) and hist[he[1]].get("custom_rush_points"):
+                        hist_kind += ":with_custom_rush_points"
                     break
         o.violate("fresh_process_twins_identical" if not sc.startswith("sim_") else "result_tables_identical",
                   f"B:{sc}{hist_kind}:{what}:first={et}:{cause}",
